@@ -110,16 +110,18 @@ Definition case := (Z * list (list Z) * list (Z * Z) * list (Z * Z) * bool * lis
 
 Definition check_case (c : case) : bool :=
   let '(nv, faces, edges_obs, corners_obs, sortflag, script) := c in
-  let m := build_mesh nv faces in
-  list_eqb pair_eqb (m_edges m) edges_obs
-  && list_eqb pair_eqb (m_corners m) corners_obs
-  && wf_mesh_b nv faces            (* the generated mesh satisfies the hypotheses of the theorems *)
+  (* the mesh as the connectivity code sees it: the finished object's own face list and edge container; its corner
+     container must be the concatenation of its faces *)
+  let m := mkMesh nv faces edges_obs (gen_corners faces) in
+  list_eqb pair_eqb corners_obs (gen_corners faces)
+  && edges_ok_b faces edges_obs
+  && wf_mesh_b nv faces            (* the finished mesh satisfies the hypotheses of the theorems *)
   && (let sfull := full_cache m sortflag in
       all_computed sfull && run_check m sortflag sfull script empty_cache).
 
 Definition debug_case (c : case) :=
   let '(nv, faces, edges_obs, corners_obs, sortflag, script) := c in
-  let m := build_mesh nv faces in
-  (list_eqb pair_eqb (m_edges m) edges_obs, list_eqb pair_eqb (m_corners m) corners_obs, wf_mesh_b nv faces,
+  let m := mkMesh nv faces edges_obs (gen_corners faces) in
+  (edges_ok_b faces edges_obs, list_eqb pair_eqb corners_obs (gen_corners faces), wf_mesh_b nv faces,
    all_computed (full_cache m sortflag),
    first_bad m sortflag (full_cache m sortflag) script empty_cache 0).
